@@ -8,7 +8,7 @@ from __future__ import annotations
 
 import z3
 
-from .values import (DictObj, ListObj, PyObj, Ref, SetObj, SV, T, TObj, Unsupported, FunV, RecV, TRec, TOpt)
+from .values import (DictObj, ListObj, PyObj, Ref, SetObj, SV, T, TObj, Unsupported, FunV, RecV, TRec, TOpt, TList)
 
 _registry: dict[str, "Contract"] = {}
 _schemas: dict[str, dict[str, T]] = {}
@@ -161,7 +161,11 @@ class View:
             if isinstance(o, ListObj) and name in ("n", "elems"):
                 return getattr(o, name)
         if isinstance(v, SV) and isinstance(v.ty, TRec) and name in v.ty.fields:
+            if isinstance(v.ty.fields[name], TList):  # a list embedded in a record: a view of the value itself (nothing is allocated)
+                return View(self._heap, SV(v.ty.accessor(name)(v.term), v.ty.fields[name]), self._st)
             return self._wrap(v.ty.get_field(self._st, v.term, name))
+        if isinstance(v, SV) and isinstance(v.ty, TList) and name in ("n", "elems"):
+            return v.ty.dt.accessor(0, 0 if name == "n" else 1)(v.term)
         if isinstance(v, RecV) and name in v.vals:
             return self._wrap(v.vals[name])
         raise AttributeError(name)
